@@ -100,7 +100,11 @@ CmdGetRange(s, now, a) ==
   IF Len(a) # 4 THEN One(RErr, s, "getrange.arity")
   ELSE LET p1 == ParseSmall(a[3])
            p2 == ParseSmall(a[4])
-       IN IF ~p1.ok \/ ~p2.ok THEN One(RErr, s, "getrange.notint")
+       IN IF ~p1.ok \/ ~p2.ok THEN
+               \* error precedence is not fixed by the reference: a wrong-type key may be reported first
+               (IF Has(s, a[2]) /\ ~HasT(s, a[2], "string")
+                THEN Two(One(RErr, s, "getrange.notint"), One(RWrong, s, "getrange.notint.wrongtype_first"))
+                ELSE One(RErr, s, "getrange.notint"))
           ELSE IF Has(s, a[2]) /\ ~HasT(s, a[2], "string") THEN One(RWrong, s, "getrange.wrongtype")
           ELSE LET v == IF Has(s, a[2]) THEN Val(s, a[2]) ELSE <<>>
                    r == GetRangeOf(v, p1.n, p2.n)
@@ -192,7 +196,10 @@ CmdDecrBy(s, now, a) ==
 CmdIncrByFloat(s, now, a) ==
   IF Len(a) # 3 THEN One(RErr, s, "incrbyfloat.arity")
   ELSE LET p == ParseDec(a[3]) k == a[2] IN
-       IF Has(s, k) /\ ~HasT(s, k, "string") THEN One(RWrong, s, "incrbyfloat.wrongtype")
+       IF Has(s, k) /\ ~HasT(s, k, "string") THEN
+            \* error precedence is not fixed by the reference: a bad increment may be reported first
+            (IF ~p.ok THEN Two(One(RWrong, s, "incrbyfloat.wrongtype"), One(RErr, s, "incrbyfloat.wrongtype.argnotfloat_first"))
+             ELSE One(RWrong, s, "incrbyfloat.wrongtype"))
        ELSE IF Len(a[3]) > 15 \/ (Has(s, k) /\ Len(Val(s, k)) > 15) THEN One(RAny, s, "incrbyfloat.unmodelled_precision")
        ELSE IF ~p.ok THEN One(RErr, s, "incrbyfloat.argnotfloat")
        ELSE LET cur == IF Has(s, k) THEN ParseDec(Val(s, k)) ELSE ParseDec(L_zero) IN
